@@ -64,7 +64,7 @@ func specialC20(p *Program, tier string) []UnitSpec {
 
 // mutators: methods that are meant to write their receiver (excluded from the
 // read-only frame obligations of C18).
-var mutatorNames = map[string]bool{"SetBytes": true, "AddAddress": true, "Add": true, "WithType": true, "WithPayload": true, "WithKeyTypes": true, "WithSigningType": true, "WithCryptoType": true, "Build": true}
+var mutatorNames = map[string]bool{"String": true, "GoString": true, "DecryptInnerData": true, "EncryptInnerLeaseSet2": true, "EncryptInnerData": true, "SetBytes": true, "AddAddress": true, "Add": true, "WithType": true, "WithPayload": true, "WithKeyTypes": true, "WithSigningType": true, "WithCryptoType": true, "Build": true}
 
 // specialC18: every exported read-only method of every type, and every
 // exported function that only takes plain data, must not store into memory
@@ -73,8 +73,13 @@ func specialC18(p *Program, tier string) []UnitSpec {
 	var out []UnitSpec
 	cfg := DefaultConfig()
 	cfg.FrameCheck = true
+	cfg.FrameSummary = true
 	cfg.Safety = false
 	cfg.QuickLoopCap = 1
+	// receivers are arbitrary values of their type; where a callee under
+	// contract requires a representation invariant of a component (CertInv,
+	// KacInv, ...) the invariant is assumed from there on: C18 is about
+	// values the parsers and constructors produce
 	for _, fn := range p.AllRepoFuncs() {
 		if !Exported(fn) {
 			continue
@@ -297,6 +302,10 @@ func RunProperty(repo, verifDir, prop, tier string, seed int) int {
 			return prop == "C04" || prop == "C20"
 		case "frame":
 			return prop == "C18"
+		case "pre", "post", "zero", "lemma":
+			if prop == "C18" {
+				return false // C18 is decided by the frame obligations alone
+			}
 		case "noalias":
 			return prop == "C08"
 		}
